@@ -17,6 +17,7 @@ package internal
 import (
 	"net/http"
 	"net/url"
+	"strings"
 )
 
 // CacheInvalidator describes the interface implemented by types that can
@@ -73,7 +74,7 @@ func (r *cacheInvalidator) invalidateLocationHeaders(
 		if err != nil {
 			continue
 		}
-		locURL = reqURL.ResolveReference(locURL)
+		locURL = resolveReference(reqURL, locURL)
 		if sameOrigin(reqURL, locURL) {
 			urlKey := r.cke.URLKey(locURL)
 			refs, _ := r.cache.GetRefs(urlKey)
@@ -83,4 +84,38 @@ func (r *cacheInvalidator) invalidateLocationHeaders(
 			deleteFn(urlKey)
 		}
 	}
+}
+
+// resolveReference resolves ref against base as RFC 3986 §5.2.2 does, except
+// that the dot segments of the result are left in place: the URL keyer removes
+// them, after normalising the percent-encoding, exactly as it does for a
+// request URL. [url.URL.ResolveReference] removes them first and by other
+// rules ("/..//b" becomes "/b", "/a/%2e%2e/../b" becomes "/a/b"), so a field
+// value and a request URL with the same spelling would get different keys.
+func resolveReference(base, ref *url.URL) *url.URL {
+	t := *ref
+	if ref.Scheme != "" {
+		return &t
+	}
+	t.Scheme = base.Scheme
+	if ref.Host != "" || ref.User != nil {
+		return &t
+	}
+	t.Host, t.User = base.Host, base.User
+	refPath := ref.EscapedPath()
+	switch {
+	case refPath == "":
+		t.Path, t.RawPath = base.Path, base.RawPath
+		if ref.RawQuery == "" && !ref.ForceQuery {
+			t.RawQuery, t.ForceQuery = base.RawQuery, base.ForceQuery
+		}
+	case refPath[0] != '/':
+		// RFC 3986 §5.2.3: the base path up to its last "/", then the reference.
+		basePath := base.EscapedPath()
+		merged := basePath[:strings.LastIndexByte(basePath, '/')+1] + refPath
+		if unescaped, err := url.PathUnescape(merged); err == nil {
+			t.Path, t.RawPath = unescaped, merged
+		}
+	}
+	return &t
 }
